@@ -171,6 +171,12 @@ theorem nl_ite_lib {α} (c : Prop) [Decidable c] (x : LibExc) (y : α) :
     nl (if c then Outcome.lib x else pure y) = true := by
   split <;> rfl
 
+theorem nl_cmp_tail {α} (c d : Prop) [Decidable c] [Decidable d] (x : LibExc) (y : α) :
+    nl (if c then Outcome.foreign "unmodelled" else if d then Outcome.lib x else pure y) = true := by
+  split
+  · exact nl_unmodelled
+  · exact nl_ite_lib _ _ _
+
 mutual
 theorem saVisit_nl (fields : List Str) (core : Bool) (Γ : Expr → Option OTy) : (e : Expr) → (τ : OTy) →
     printable e = true → sType Γ e = some τ → pyLitOk e = true → nl (saVisit fields core e) = true
@@ -218,20 +224,22 @@ theorem saVisit_nl (fields : List Str) (core : Bool) (Γ : Expr → Option OTy) 
       have h2 := saVisit_nl fields core Γ r b hpr hb hl.2
       refine nl_bind' _ _ h1 (fun ⟨ta, ka⟩ hv1 => nl_bind _ _ h2 (fun ⟨tb, kb⟩ => ?_))
       dsimp only
-      split
-      · rename_i hop
-        have hop' : op = .in_ := by simpa using hop
-        have hnl := saVisit_notList fields core l (not_list_of_sType ha (hin hop'))
+      by_cases hop : op = .in_
+      · subst hop
+        have hnl := saVisit_notList fields core l (not_list_of_sType ha (hin rfl))
         rw [hv1] at hnl
+        have hsw : (isNullLit l && (CmpOp.in_ == CmpOp.eq || CmpOp.in_ == CmpOp.ne)) = false := by
+          rw [show (CmpOp.in_ == CmpOp.eq) = false from rfl, show (CmpOp.in_ == CmpOp.ne) = false from rfl]; simp
+        simp only [hsw, Bool.false_eq_true, if_false, beq_self_eq_true, if_true]
         split
         · rename_i hk
           have : ka = .list := by simpa using hk
           subst this
           cases hnl
         · rfl
-      · split
-        · exact nl_unmodelled
-        · exact nl_ite_lib _ _ _
+      · have hop' : (op == CmpOp.in_) = false := by simpa using hop
+        simp only [hop', Bool.false_eq_true, if_false]
+        split <;> exact nl_cmp_tail _ _ _ _
   | .boolop op l r, _, hp, ht, hl => by
       rw [saVisit]
       rw [printable] at hp
